@@ -15,6 +15,7 @@ import (
 	"os"
 	"runtime"
 	"sort"
+	"strings"
 	"sync"
 	"sync/atomic"
 	"testing"
@@ -63,6 +64,7 @@ type cWorld struct {
 	ninv  map[string]int
 	cache starlark.Value
 	once  starlark.Value
+	once2 starlark.Value // a second cache: the key "k~2" of a case is the key "k" of that one
 }
 
 func newCWorld(c *cCase, rec *sched.Recorder) (*cWorld, error) {
@@ -82,6 +84,16 @@ func newCWorld(c *cCase, rec *sched.Recorder) (*cWorld, error) {
 		return nil, fmt.Errorf("cache has no once attribute: %v", err)
 	}
 	w.once = o
+	if cv2, err := starlark.Call(th, builtin_cache, nil, nil); err == nil {
+		if ha2, ok := cv2.(starlark.HasAttrs); ok {
+			if o2, err := ha2.Attr("once"); err == nil && o2 != nil {
+				w.once2 = o2
+				if c.Frozen {
+					cv2.Freeze()
+				}
+			}
+		}
+	}
 	if c.Frozen {
 		// what the interpreter does to every global of a module once the module has loaded:
 		// target functions only ever see a frozen cache
@@ -129,7 +141,11 @@ func (w *cWorld) caller(x string) {
 					err = cErr("panic")
 				}
 			}()
-			v, err = starlark.Call(th, w.once, starlark.Tuple{starlark.String(k), w.callable(x, k)}, nil)
+			once, real := w.once, k
+			if r, ok := strings.CutSuffix(k, "~2"); ok && w.once2 != nil {
+				once, real = w.once2, r
+			}
+			v, err = starlark.Call(th, once, starlark.Tuple{starlark.String(real), w.callable(x, k)}, nil)
 		}()
 		if err != nil {
 			val := err.Error()
